@@ -443,7 +443,7 @@ class Rectilinear(Scalar):
         nVar, dim = np.fromfile(f, dtype=np.int32, count=2)
         gridSizes = np.fromfile(f, dtype=np.int32, count=dim)
         coords = [np.fromfile(f, dtype=np.float64, count=n) for n in gridSizes]
-        self.setHeader(nVar, coords)
+        self.setHeader(int(nVar), coords)
 
     def reshape(self, fields: np.ndarray):
         """Reshape the fields to a N-d array (inplace operation)"""
